@@ -3,6 +3,7 @@ package rules
 import (
 	"fmt"
 	"go/constant"
+	"go/token"
 	"go/types"
 	"sort"
 	"strings"
@@ -92,6 +93,36 @@ func c20(c *q.Ctx) {
 			if len(q.CallsIn(a, "Subscriber.HandleMessage")) > 0 {
 				c.ArgIs(a, "Subscriber.HandleMessage", 1, "*p1", 1, "the handler receives the dispatched message")
 				c.ArgIs(a, "Subscriber.HandleMessage", -1, "p0", 1, "of the subscriber that matched")
+				// the concurrency slot taken before the goroutine started is given back on EVERY way out of it (a
+				// handler that fails must not leak the slot: after `parallel` leaks Dispatch blocks for good, holding
+				// the subscriber-table read lock)
+				isRecv := func(i ssa.Instruction) bool {
+					u, ok := i.(*ssa.UnOp)
+					return ok && u.Op == token.ARROW && strings.HasSuffix(q.Canon(u.X), ".parallel")
+				}
+				deferred := false // `defer func() { <-d.parallel }()`: released by the deferred calls
+				for _, b := range a.Blocks {
+					for _, ins := range b.Instrs {
+						if d, ok := ins.(*ssa.Defer); ok {
+							if mc, ok := d.Call.Value.(*ssa.MakeClosure); ok {
+								for _, db := range mc.Fn.(*ssa.Function).Blocks {
+									for _, di := range db.Instrs {
+										if isRecv(di) {
+											deferred = true
+										}
+									}
+								}
+							}
+						}
+					}
+				}
+				recv := q.Target{Name: "receive from the slot channel", Instr: func(i ssa.Instruction) bool {
+					if _, ok := i.(*ssa.RunDefers); ok && deferred {
+						return true
+					}
+					return isRecv(i)
+				}}
+				c.Then(a, q.ToCall("Subscriber.HandleMessage"), recv, q.ToAnyReturn(), nil, "every started handler releases its concurrency slot")
 			}
 		}
 	}
@@ -103,6 +134,35 @@ func c20(c *q.Ctx) {
 	rg := c.Fn(p2p + "(*dispatcher).Register")
 	if rg != nil {
 		c.Guard(rg, q.Cond{Canon: "has(p0.mc[i:Subscriber.GetMessageType(p1)],p1)", Sense: true}, q.ToSuccess(), q.Opt{})
+	}
+	if ur := c.Fn(p2p + "(*dispatcher).UnRegister"); ur != nil {
+		// un-registering one subscriber never takes another one out: the per-type table is dropped (if at all) only
+		// when it is empty
+		dropType := q.Target{Name: "delete of a whole message-type entry", Instr: func(i ssa.Instruction) bool {
+			ci, ok := i.(ssa.CallInstruction)
+			if !ok {
+				return false
+			}
+			b, ok := ci.Common().Value.(*ssa.Builtin)
+			return ok && b.Name() == "delete" && q.Canon(ci.Common().Args[0]) == "p0.mc"
+		}}
+		nDrop := 0
+		for _, b := range ur.Blocks {
+			for _, ins := range b.Instrs {
+				if !dropType.Instr(ins) {
+					continue
+				}
+				nDrop++
+				c.Sites++
+				empty := q.HasGuard(b, q.Cond{Canon: "(0 == len(p0.mc[i:Subscriber.GetMessageType(p1)]))", Sense: true})
+				c.Check(empty, "K2", p2p+"(*dispatcher).UnRegister", "a whole message-type entry is dropped only when its subscriber table is empty", c.At(ins), "the other subscribers of the type stay registered")
+			}
+		}
+		if nDrop == 0 {
+			c.OK("K2", p2p+"(*dispatcher).UnRegister", "no whole message-type entry is dropped", "-", "the other subscribers of the type stay registered")
+		}
+		c.Effect(ur, q.Eff{Spec: "delete", Arg: 1, Glob: "p1", Why: "the subscriber itself is removed", Rule: "K2"})
+		c.ArgIs(ur, "delete", 0, "p0.mc[i:Subscriber.GetMessageType(p1)] OR p0.mc", 1, "from the table of its own message type")
 	}
 	mk := c.Fn(p2p + "MessageKey")
 	if mk != nil {
